@@ -79,7 +79,7 @@ class World:
         return (HOSTS[op["h"]], PORTS[op["p"]], bool(op.get("tls")), proxy[0] if proxy else None, proxy[1:] if proxy else None)
 
     def on_request(self, peer: Peer, head: bytes) -> None:
-        m = re.match(rb"(?:GET|POST) (?:https?://[^/ ]+)?/r(\d+) HTTP/1\.1", head)
+        m = re.match(rb"(?:GET|POST|HEAD) (?:https?://[^/ ]+)?/r(\d+) HTTP/1\.1", head)
         n = int(m.group(1)) if m else -1
         op = self.current
         peer.requests.append(n)
@@ -100,9 +100,18 @@ class World:
             peer.tainted = peer.tainted or f"request r{n} announced a body with Expect: 100-continue, got a final response, body unsent"
         body = f"conn{peer.idx}-r{n}-".encode() + bytes((n * 31 + i) % 251 for i in range(ps.get("size", 10)))
         op["_expect_body"] = body
-        hdr = f"HTTP/1.1 200 OK\r\nX-Exchange: {n}\r\n"
+        status = ps.get("status", 200)
+        hdr = f"HTTP/1.1 {status} X\r\nX-Exchange: {n}\r\n"
         fr = ps.get("framing", "cl")
-        if fr == "cl":
+        if status in (204, 304) or head.startswith(b"HEAD "):
+            # no body on the wire whatever the framing headers say (RFC 9112 6.3): the next response follows immediately
+            op["_expect_body"] = b""
+            framing_hdr = {"cl": f"Content-Length: {len(body)}\r\n", "chunked": "Transfer-Encoding: chunked\r\n", "eof": ""}[fr]
+            if status == 204:
+                framing_hdr = "" if fr != "cl" else framing_hdr
+            data = (hdr + framing_hdr + "\r\n").encode()
+            fr = "none"
+        elif fr == "cl":
             data = (hdr + f"Content-Length: {len(body)}\r\n\r\n").encode() + body
         elif fr == "chunked":
             half = len(body) // 2
@@ -228,6 +237,8 @@ def execute(case: dict) -> dict:
                     try:
                         if op.get("expect"):
                             resp = await session.post(url, data=b"0123456789", expect100=True, **kw)
+                        elif op.get("head"):
+                            resp = await session.head(url, **kw)
                         else:
                             resp = await session.get(url, **kw)
                         res["status"] = resp.status
@@ -293,7 +304,7 @@ def execute(case: dict) -> dict:
             n = res["n"]
             if "error" in res:
                 continue
-            if res.get("xch") != str(n) or res.get("status") != 200:
+            if res.get("xch") != str(n) or res.get("status") != op["peer"].get("status", 200):
                 raise Violation("foreign-response", f"request r{n} was answered with status={res.get('status')} X-Exchange={res.get('xch')!r}: bytes of another exchange")
             exp = res.get("expect_body")
             if "body" in res and exp is not None:
@@ -349,8 +360,10 @@ def cases(draw, narrow: bool):
         "end": st.sampled_from(["release", "release", "close"]),
         "settle": st.integers(0, 4),
         "expect": st.sampled_from([False, False, False, False, True]),
+        "head": st.sampled_from([False, False, False, False, True]),
         "peer": st.fixed_dictionaries({
             "framing": st.sampled_from(["cl", "cl", "chunked", "eof"]),
+            "status": st.sampled_from([200, 200, 200, 204, 304]),
             "size": st.sampled_from([0, 1, 10, 300]),
             "surplus": st.sampled_from([None, None, "garbage", "response", "two_responses", "partial"]),
             "surplus_when": st.sampled_from(["same", "later"]),
@@ -370,6 +383,12 @@ def cases(draw, narrow: bool):
                 ps["surplus"] = None  # bytes after an EOF-delimited / truncated body are body bytes, not surplus
             if ps["framing"] == "eof":
                 ps["truncate"] = None  # a shortened EOF-delimited body cannot be told from a complete one
+            if o.get("expect"):
+                o["head"] = False
+            if o.get("head") or ps["status"] in (204, 304):
+                ps["truncate"] = None  # nothing to truncate: these responses end with the header block
+                if ps["framing"] == "eof":
+                    ps["framing"] = "cl"
     return {"ops": ops, "s2c": draw(st.sampled_from([[], [], [1], [7, 3]]))}
 
 
